@@ -87,6 +87,7 @@ MATH_FUNCS = {
     'sqrt': sp.sqrt, 'exp': sp.exp, 'log': sp.log, 'abs': sp.Abs, 'fabs': sp.Abs,
     'atan2': sp.atan2, 'floor': sp.floor, 'ceil': sp.ceiling,
     'hypot': lambda a, b: sp.sqrt(a * a + b * b), 'cbrt': lambda a: sp.real_root(a, 3), 'sinh': sp.sinh, 'cosh': sp.cosh, 'tanh': sp.tanh,
+    'asinh': sp.asinh, 'acosh': sp.acosh, 'atanh': sp.atanh,
     'log2': lambda a: sp.log(a, 2), 'log10': lambda a: sp.log(a, 10), 'log1p': lambda a: sp.log(1 + a), 'expm1': lambda a: sp.exp(a) - 1,
 }
 
@@ -147,6 +148,8 @@ class Reader:
         self.atom_defs = {}       # name -> defining expression (in terms of earlier atoms)
         self.atom_order = []
         self.statics = {}         # id -> name of the function-local statics met (E-PURE)
+        self.assume = None        # optional callable(condition value) -> True / False / None: the caller's standing assumption on inputs
+        self.pruned = []          # (condition text, branch not followed, loc, function) for every branch the assumption cut
         self.unroll = 0           # > 0: for-loops whose condition evaluates to a concrete truth value are unrolled (at most this many iterations)
 
     # -- entry ---------------------------------------------------------
@@ -325,6 +328,10 @@ class Reader:
             out = []
             for (c, s2) in self.ev(s['c'], st, ctx):
                 truth = _truth(c)
+                if truth is None and self.assume is not None:
+                    truth = self.assume(c)
+                    if truth is not None:
+                        self.pruned.append((pp(s['c']), not truth, s.get('loc'), (ctx.get('fn') or {}).get('q')))
                 if truth is not False:
                     a = s2.copy()
                     a.cond.append((pp(s['c']), c, True, s['c']))
